@@ -101,7 +101,7 @@ func C11(c *ev.Ctx) {
 	c.Cov.Evaluations = int64(len(cases))
 	c.Cov.DistinctNontrivial = int64(len(combos))
 	c.Cov.Exhaustive = true
-	c.Cov.Rule = "full product of builder inputs: operation type x 5 key types / signature algorithms x SHA-256/SHA-512 x window (none, anchorFrom only, from+until, anchored exactly at the first / last second of the declared or default window) x patch list class (one patch, two patches, opaque document / JSON patch) x anchor origin (none, string, object) x signing-key nonce; each request is built by the real client library, parsed by a real parser whose protocol enables exactly that algorithm, compared field by field with the inputs, then anchored inside its window and resolved by the real processor; the result must equal the SidetreeCore state change computed by TLC and carry the anchor origin the create / recover supplied (the DID's previous one after an update). Non-trivial count: distinct (type, key type, hash) combinations."
+	c.Cov.Rule = "full product of builder inputs: operation type x 5 key types / signature algorithms x SHA-256/SHA-512 x window (none, anchorFrom only, from+until, anchored exactly at the first / last second of the declared or default window) x patch list class (one patch, two patches, opaque document / JSON patch, opaque document with null / empty service and alias sections / removals of absent ids) x anchor origin (none, string, object) x signing-key nonce; each request is built by the real client library, parsed by a real parser whose protocol enables exactly that algorithm, compared field by field with the inputs, then anchored inside its window and resolved by the real processor; the result must equal the SidetreeCore state change computed by TLC and carry the anchor origin the create / recover supplied (the DID's previous one after an update). Non-trivial count: distinct (type, key type, hash) combinations."
 	c.Finish("model_checking")
 }
 
@@ -170,6 +170,17 @@ func runClientCase(cs *clientCase) (string, interface{}) {
 			// besides keys and services: members whose names need JSON-pointer escaping, and members whose names merely
 			// start like a protected section
 			opaque = fmt.Sprintf(`{"publicKey":%s,"service":[{"id":"svc1","type":"LinkedDomains","serviceEndpoint":"https://example.com/x"}],"https://schema.org/name":"Alice","a~1b":1,"serviceCount":2,"publicKeys":"none"}`, concr.KeyPatchJSON(20))
+		}
+	case "opaqueSparse":
+		// an opaque document (as resolution itself reports one after removals / a replace) whose service and alias
+		// sections are present but null or empty; an update carries removals of absent ids instead
+		if cs.C.Ty == "U" {
+			rs, _ := patch.NewRemoveServiceEndpointsPatch(`["absent"]`)
+			rk, _ := patch.NewRemovePublicKeysPatch(`["absent"]`)
+			patches = append(concr.DeltaPatches("ok", 20), rs, rk)
+		} else {
+			v := cs.C.Kt + len(cs.C.Win) + len(cs.C.Origin) + int(cs.C.Hash)
+			opaque = fmt.Sprintf(`{"publicKey":%s,"service":%s,"alsoKnownAs":%s,"created":"2020-01-01"}`, concr.KeyPatchJSON(20), []string{"null", "[]"}[v%2], []string{"[]", "null"}[v/2%2])
 		}
 	}
 	var origin interface{}
